@@ -287,6 +287,12 @@ def step(draw, info: Info, kinds):
             return dict(k="op", entry="state", targets=[t], op=draw(op_for_kind(info.kind[t])))
         c = draw(s_)
         return dict(k="op", entry=ce, targets=c["targets"], op=c["op"])
+    if k == "newce":
+        units_all = [f"e{i}" for i in range(len(info.spec["envs"]))] + [f"c{i}" for i in range(len(info.spec["customs"]))]
+        # handles created by earlier newce steps are named ce<n> in creation order; the interpreter skips unknown ones
+        pool = sorted(info.ce_members) + [f"ce{len(info.ce_members) + j}" for j in range(2)] + units_all
+        n = draw(st.integers(1, min(3, len(pool))))
+        return dict(k="struct", call="new_ce", members=list(draw(st.permutations(pool))[:n]))
     if k == "struct_rep":
         calls = ["expand", "contract", "contract"]
         if info.spec["envs"]:
